@@ -325,7 +325,10 @@ def check_seq(case, ctx: Ctx):
         if x.size and np.any(x):
             full = np.asarray(cv.obj.modulate(x).as_array(), dtype=float)  # index i <-> time i - rise_time
             tail = full[cv.obj.rise_time + n_amp:]
-            lim = max(0.01, 0.006 * float(np.max(np.abs(x))))
+            # (the statement bounds the tail of ONE isolated pulse: tails of neighbouring
+            #  pulses add up)
+            near = sum(1 for sl in cv.slots if isinstance(sl[0], _Pulse) and cv.end - sl[2] < 4 * cv.obj.rise_time)
+            lim = max(0.01, 0.006 * float(np.max(np.abs(x)))) * max(1, near)
             if tail.size and float(np.max(np.abs(tail))) > lim:
                 ctx.fail(C, "modulated_samples_cut_while_output_is_high",
                          f"{n}: arrays end at {n_amp} ns where the output is still {float(np.max(np.abs(tail))):.4f} "
